@@ -20,17 +20,26 @@ LayShared == {C("layout", TRUE, 0, FALSE, "pair", FALSE)}
 LayForeign == {C("layout", TRUE, 0, FALSE, i, FALSE) : i \in {"dupadj", "dupsep", "dupsame", "fullname", "mixed"}}
 LayDupAdj == {C("layout", TRUE, 0, FALSE, "dupadj", FALSE)}
 LayFullName == {C("layout", TRUE, 0, FALSE, i, FALSE) : i \in {"fullname", "mixed"}}
+Fix(S) == {[c EXCEPT !.fixed = TRUE] : c \in S}
 LayForeignFixed == {C("layout", TRUE, 0, FALSE, i, TRUE) : i \in {"dupadj", "dupsep", "dupsame", "fullname", "mixed", "untagged", "pair", "nodir"}}
 \* the repaired code under concurrency: cache coherence and stable heads must hold
-Fix(S) == {[c EXCEPT !.fixed = TRUE] : c \in S}
 FixedConc == Fix(RegCache) \cup Fix(LayClean)
 SeqConfs == RegConfs \cup LayClean
+Conc2Confs == RegConfs \cup LayClean
 \* schedule generation: 3 tags in the registry so that paging has something to page
 RegConfs3 == Warm({C("reg", td, pg, c, i, FALSE) : td \in BOOLEAN, pg \in {0, 1, 2}, c \in BOOLEAN, i \in {"pair", "shared"}})
 LayConfs3 == {C("layout", TRUE, 0, FALSE, i, FALSE) : i \in {"pair", "shared", "untagged", "nodir"}}
 SchedConfs == RegConfs3 \cup LayConfs3
 \* exhaustive schedule enumeration (thorough): every interleaving of 2 goroutines x 1 operation on the
 \* registry variants where interleavings matter most (fall-back delete, paged listing, cache cold / warm)
+\* sequential behaviours of (D) whose back-end state is compared with the real one after every
+\* operation: every layout start content (HEAD code variant) and the registry without cache
+Seq1Confs == {C("layout", TRUE, 0, FALSE, i, FALSE) : i \in {"nodir", "empty", "pair", "shared", "untagged", "dupadj",
+                                                            "dupsep", "dupsame", "fullname", "mixed"}}
+             \cup {C("reg", td, 0, FALSE, i, FALSE) : td \in BOOLEAN, i \in {"empty", "shared"}}
+\* ... and the repaired layout code on the start contents where the two variants differ: the runner reports
+\* which variant of (D) the code under test matches
+Seq1Both == Seq1Confs \cup {C("layout", TRUE, 0, FALSE, i, TRUE) : i \in {"dupadj", "dupsep", "dupsame", "fullname", "mixed"}}
 SchedAllConfs == {c \in RegConfs3 : c.init = "shared" /\ c.page = 1 /\ (c.cache => c.warm)}
 SeqConfs3 == RegConfs3 \cup LayConfs3 \cup {C("reg", td, pg, c, "empty", FALSE) : td \in BOOLEAN, pg \in {0, 1, 2}, c \in BOOLEAN}
 AllKinds == {"push", "pushd", "tagdel", "mdel", "mdelr", "head", "get", "list"}
